@@ -226,7 +226,12 @@ def generate(seed, idx, tier):
         steps.append({'cell': rng.choice(pool)['id']})
     base.update(state=state, nrg=rng.choice((1, 3, 3, 12)), steps=steps,
                 newrows=rng.choice((12, 12, 150, 400)),
-                victim=victim, strict=strict)
+                victim=victim, strict=strict,
+                # a slice of the chains runs on a real private directory
+                # through the library's default open/mkdirs: state the
+                # library keeps about a local path between calls is only
+                # reachable there
+                local=rng.random() < 0.15)
     return base
 
 
@@ -318,7 +323,6 @@ def execute(case):
     state = case['state']
     partitioned = state == 'hivep'
     scheme = 'simple' if state == 'simple' else 'hive'
-    path = '/w/ds.parq' if state == 'simple' else D.DS
     parts = ['p'] if partitioned else []
     rng = prng.stream(case['vseed'], 'values')
     # victim type / nullability of the existing dataset
@@ -329,7 +333,23 @@ def execute(case):
     else:
         v = _victim_of(first) if first else None
         vtype, nullable = v if v else ('str', True)
-    fs = D.new_fs('posix')
+    fs = D.new_fs('posix', local=case.get('local', False))
+    path = D.ds_path(fs, 'ds.parq' if state == 'simple' else 'ds')
+    try:
+        return _execute(case, fs, path, res, cnt, probes, bump, violation,
+                        cells, state, partitioned, scheme, parts, rng, vtype,
+                        nullable)
+    finally:
+        D.cleanup(fs)
+
+
+def _rows(snap):
+    cols = sorted(snap['canon'])
+    return F.rows_of(snap['canon'], cols)
+
+
+def _execute(case, fs, path, res, cnt, probes, bump, violation, cells, state,
+             partitioned, scheme, parts, rng, vtype, nullable):
     h = hashlib.blake2b(digest_size=8)
     with F.Knobs(case['knobs']), F.Poison():
         base = good_frame(vtype, 24 if case['nrg'] == 12 else 9, rng,
@@ -356,8 +376,24 @@ def execute(case):
                                  'wrg-frame' else 'write',
                                  'codec': case['newcodec'], 'rgo': 3},
                                 scheme, parts)
-                    before = D.read_all(fs, path)
+                    after = D.read_all(fs, path)
                     bump(cnt, 'valid_ops_in_chains')
+                    # exactly the new rows were added: nothing an earlier
+                    # refused operation left behind (orphan part files, a
+                    # handle kept by the library) may surface now
+                    exp = _rows(before) + F.rows_of(
+                        F.canon_frame(df), sorted(before['canon']))
+                    got = _rows(after)
+                    if (sorted(got, key=repr) if partitioned else got) != \
+                            (sorted(exp, key=repr) if partitioned else exp):
+                        violation('C18/valid-operation-after-refusal-wrong-'
+                                  'content', 'step %d: valid %s after earlier '
+                                  'refusals: %d rows read, %d expected '
+                                  '(previous content + the new frame)'
+                                  % (si, step['valid'], len(got), len(exp)),
+                                  si)
+                        break
+                    before = after
                 except Exception as e:
                     violation('C18/valid-operation-failed-after-refusal',
                               'step %d: valid %s after earlier refusals '
@@ -388,7 +424,7 @@ def execute(case):
                 violation('C18/not-an-exception:%s' % cell['id'],
                           'step %d cell %s: ended in %s' % (si, cell['id'],
                                                             err), si)
-            if cell['mode'] == 'read' and mutated:
+            if cell['mode'] == 'read' and mutated and not D.is_local(fs):
                 violation('C18/read-side-rejection-mutated-storage:%s'
                           % cell['kind'],
                           'step %d cell %s: %d mutating filesystem calls'
@@ -426,6 +462,8 @@ def execute(case):
             s.get('cell', 'valid:' + s.get('valid', '')) for s in
             case['steps']))
     res['digest'] = h.hexdigest() + fs.digest()
+    if D.is_local(fs):
+        bump(probes, 'chains_on_real_local_directory')
     if case['idx'] % 97 == 0:
         res['sample'] = {'state': state, 'row_groups': case['nrg'],
                          'steps': case['steps'], 'knobs': case['knobs']}
@@ -444,7 +482,7 @@ def run_cell(fs, cell, path, scheme, parts, vtype, rng, case):
     kw = {}
     try:
         if mode == 'read':
-            pf = ParquetFile(path, fs=fs)
+            pf = D.open_pf(path, fs)
             names = list(COLS)
             if kind == 'unknown-column-in-columns':
                 names.insert(col if col < 2 else len(names), 'nope')
@@ -487,8 +525,7 @@ def run_cell(fs, cell, path, scheme, parts, vtype, rng, case):
             if kind == 'bad-file-scheme':
                 sch = 'flat-ish'
             write(path, df, file_scheme=sch, partition_on=list(parts),
-                  open_with=fs.open, mkdirs=fs.mkdirs, write_index=False,
-                  **wkw)
+                  write_index=False, **D.io(fs), **wkw)
             return 'returned', None
         # ---- append-like modes
         df = good_frame(vtype, n, rng, partitioned)
@@ -519,22 +556,21 @@ def run_cell(fs, cell, path, scheme, parts, vtype, rng, case):
             df = df.iloc[:0]
         if mode == 'append':
             write(path, df, file_scheme=app_scheme, partition_on=app_parts,
-                  open_with=fs.open, mkdirs=fs.mkdirs, append=True,
-                  row_group_offsets=third, compression=comp)
+                  append=True, row_group_offsets=third, compression=comp,
+                  **D.io(fs))
         elif mode == 'overwrite':
             write(path, df, file_scheme=app_scheme, partition_on=app_parts,
-                  open_with=fs.open, mkdirs=fs.mkdirs, append='overwrite',
-                  row_group_offsets=third, compression=comp)
+                  append='overwrite', row_group_offsets=third,
+                  compression=comp, **D.io(fs))
         elif mode == 'wrg-frame':
-            pf = ParquetFile(path, fs=fs)
-            pf.write_row_groups(df, third, compression=comp, open_with=fs.open,
-                                mkdirs=fs.mkdirs)
+            pf = D.open_pf(path, fs)
+            pf.write_row_groups(df, third, compression=comp, **D.io(fs))
         elif mode == 'wrg-iter':
-            pf = ParquetFile(path, fs=fs)
+            pf = D.open_pf(path, fs)
             chunks = [df.iloc[0:third], df.iloc[third:2 * third],
                       df.iloc[2 * third:]]
             pf.write_row_groups(iter(chunks), None, compression=comp,
-                                open_with=fs.open, mkdirs=fs.mkdirs)
+                                **D.io(fs))
         return 'returned', None
     except Exception as e:
         return 'raised', e
